@@ -1,6 +1,38 @@
-import RucteModel
+import RucteModel.Statics
+import RucteProofs.Literals
 
-/-! # C08 — placeholder: theorems are added as they are proved. -/
+/-!
+# C08 — embedded static content and names are exact
+
+Encoders are what ructe prints (`escapeAscii` = `escape_default` per byte for `ByteString`,
+`strDebug` = `{:?}` for the `include_bytes!` path and, after the repair, for `name:`);
+decoders are the model of rustc's literal lexer (`RucteModel/RustLit.lean`).
+-/
 namespace Ructe.C08
-theorem placeholder : True := trivial
+open Nom
+
+/-- the `b"…"` literal printed for data decodes to exactly the data, for **every** byte string -/
+theorem byteString_roundtrip (d : Bytes) :
+    decodeByteStrLit ([98, 34] ++ escapeAscii d ++ [34]) = some d := by
+  exact decodeByteStrLit_escapeAscii d
+
+/-- the `"…"` literal printed by `{:?}` decodes to exactly the string, for every valid UTF-8
+string and every choice `uniEsc` of which non-ASCII scalars `char::escape_debug` escapes -/
+theorem strDebug_roundtrip (ue : Nat → Bool) (s : Bytes) (h : validUtf8 s = true) :
+    decodeStrLit (strDebug ue s) = some s := by
+  exact decodeStrLit_strDebug ue s h
+
+/-- the printed content expression of a data item is that literal -/
+theorem printContent_data (ue : Nat → Bool) (d : Bytes) :
+    printContent ue (.data d) = str "b\"" ++ escapeAscii d ++ str "\"" := by
+  rfl
+
+/-- the pinned code printed the URL name between bare quotes: a name with a double quote does not
+lex, a name with a backslash lexes to a different string (finding #3, machine-checked) -/
+theorem name_raw_counterexample :
+    decodeStrLit (nameLitPinned [119, 101, 34, 105, 114, 100]) = none ∧                          -- we"ird
+    decodeStrLit (nameLitPinned [98, 97, 99, 107, 92, 110, 115]) = some [98, 97, 99, 107, 10, 115] ∧   -- back\ns ↦ back⏎s
+    decodeStrLit (strDebug (fun _ => false) [119, 101, 34, 105, 114, 100]) = some [119, 101, 34, 105, 114, 100] := by
+  decide +kernel
+
 end Ructe.C08
